@@ -338,6 +338,18 @@ def load_state(arr):
     return None, True, None
 
 
+def conf_excludes(arr):
+    """(patterns of `exclude <pattern>` lines without a slash (matched on the file name), absolute content paths)"""
+    pats, contents = [], []
+    for ln in open(arr.conf).read().split('\n'):
+        t = ln.split()
+        if len(t) >= 2 and t[0] == 'exclude' and '/' not in t[1]:
+            pats.append(t[1])
+        if len(t) >= 2 and t[0] == 'content':
+            contents += [t[1], t[1] + '.tmp', t[1] + '.lock']
+    return pats, contents
+
+
 def conf_values(arr):
     bs, hs, disks = None, 16, []
     for ln in open(arr.conf).read().split('\n'):
@@ -353,7 +365,7 @@ def conf_values(arr):
     return bs, hs, disks
 
 
-def walk_scan(base):
+def walk_scan(base, skip=None):
     """the objects the scanner meets in one disk directory, in its order (--test-force-order-alpha: names sorted),
     as a list of ('f', rel, lstat) | ('l', rel, target) | ('d', rel) (d = directory holding no file or link)"""
     out = []
@@ -367,6 +379,8 @@ def walk_scan(base):
         for n in names:
             p = os.path.join(dirp, n)
             r = rel + n
+            if skip and skip(p, n):
+                continue          # excluded by the configuration (exclude rule, a content file kept on the data disk)
             st = os.lstat(p)
             if stat.S_ISLNK(st.st_mode):
                 out.append(('l', r, os.readlink(p)))
@@ -386,7 +400,7 @@ def walk_scan(base):
     return out
 
 
-def scan_summary(arr, st, conf_disks, uuid_disks=()):
+def scan_summary(arr, st, conf_disks, uuid_disks=(), skip=None):
     """independent re-statement of the scan classification (scan.c scan_file / scan_link / state_diffscan).
     Disks named in uuid_disks have a valid, unchanged UUID (--test-fake-uuid): the inodes recorded in the content file are
     trusted, so MOVED files (same inode, size, time; other name) and RESTORED files (same name, size, time; other inode) are
@@ -453,7 +467,7 @@ def scan_summary(arr, st, conf_disks, uuid_disks=()):
                 c['change'] += 1
             else:
                 c['insert'] += 1
-        for ent in walk_scan(dirp):
+        for ent in walk_scan(dirp, skip):
             if ent[0] == 'l':
                 do_link(ent[1], ent[2], False)
             elif ent[0] == 'd':
@@ -587,18 +601,51 @@ def presummary(arr, paths, cmd, opts):
     present = [os.path.exists(c) for c in arr.content_files]
     sizes = set(os.path.getsize(c) for c in arr.content_files if os.path.exists(c))
     d['read_need_write'] = (idx is not None) and (not all(present) or len(sizes) > 1)
+    d['_rnw_base'] = d['read_need_write']
     d['bs_mismatch'] = bool(st) and st['blocksize'] != bs
     d['hs_mismatch'] = bool(st) and st['hashsize'] != hs
     cnames = [n for n, _ in conf_disks]
-    d['unknown_disk'] = bool(st) and any(m['name'] not in cnames for m in st['maps'])
-    d['uuid_changes'] = 0
-    loaded = st if (st and not d['bs_mismatch'] and not d['hs_mismatch'] and not d['unknown_disk']) else None
+    # UUIDs: none under --test-skip-device, except with --test-fake-uuid (first two configured data disks, by position), and never
+    # for the commands that do not access the data disks (status, list, dup)
+    fakemode = ('--test-fake-uuid' in opts or getattr(arr, 'fake_uuid', False)) and cmd not in ('status', 'list', 'dup')
+    cur_uuid = {n: (('fake-uuid-%d' % (2 - i)).encode() if (fakemode and i < 2) else b'') for i, (n, _) in enumerate(conf_disks)}
+    renamed = {}
+    unk_disk = False
+    for m in (st['maps'] if st else []):
+        if m['name'] in cnames:
+            continue
+        if '--test-match-first-uuid' in opts and conf_disks:
+            renamed[m['name']] = conf_disks[0][0]
+            continue
+        cands = [n for n, u in cur_uuid.items() if u and u == m['uuid']]
+        if m['uuid'] and len(cands) == 1:
+            renamed[m['name']] = cands[0]          # state.c:2593-2601: renamed by UUID
+        else:
+            unk_disk = True
+    d['unknown_disk'] = bool(st) and unk_disk
+    d['_renamed'] = renamed
+    # state_map: a supported current UUID that differs from a recorded non-empty one is a UUID change
+    nchg = 0
+    for m in (st['maps'] if st else []):
+        n = renamed.get(m['name'], m['name'])
+        if n in cur_uuid and cur_uuid[n] and m['uuid'] and cur_uuid[n] != m['uuid'] and cmd not in ('status', 'list', 'dup'):
+            nchg += 1
+    d['uuid_changes'] = nchg
+    if st and (renamed or any(cur_uuid.get(renamed.get(m['name'], m['name'])) and cur_uuid[renamed.get(m['name'], m['name'])] != m['uuid'] for m in st['maps'])):
+        d['read_need_write'] = True
+    loaded = st if (st and not d['bs_mismatch'] and not d['hs_mismatch'] and not d['unknown_disk'] and not (nchg > arr.np and '-U' not in opts and '--force-uuid' not in opts)) else None
     # --test-fake-uuid gives the first two configured data disks a valid UUID; it is trusted when the content file records the same
     uuid_disks = ()
-    if ('--test-fake-uuid' in opts or getattr(arr, 'fake_uuid', False)) and loaded:
-        fake = {n: ('fake-uuid-%d' % (2 - i)).encode() for i, (n, _) in enumerate(conf_disks[:2])}
-        uuid_disks = tuple(m['name'] for m in loaded['maps'] if fake.get(m['name']) == m['uuid'])
-    scan = scan_summary(arr, loaded, conf_disks, uuid_disks)
+    if loaded and renamed:
+        loaded = dict(loaded)
+        loaded['disks'] = {renamed.get(k, k): v for k, v in loaded['disks'].items()}
+    if fakemode and loaded:
+        uuid_disks = tuple(renamed.get(m['name'], m['name']) for m in loaded['maps']
+                           if m['uuid'] and cur_uuid.get(renamed.get(m['name'], m['name'])) == m['uuid'])
+    import fnmatch as _fn
+    pats, cpaths = conf_excludes(arr)
+    skip = (lambda p, n: p in cpaths or any(_fn.fnmatchcase(n, pt) for pt in pats)) if (pats or cpaths) else None
+    scan = scan_summary(arr, loaded, conf_disks, uuid_disks, skip)
     d['_scan'] = scan
     d['disks'] = [(c['equal'], c['move'], c['restore'], c['remove'], c['change'], c['insert'], c['copy'], c['zero']) for c in scan]
     d['scan_need_write'] = any(c['need_write'] for c in scan)
@@ -626,6 +673,16 @@ def presummary(arr, paths, cmd, opts):
     d['parity_access'] = [not (norec and s % bs) for s in psz]
     d['parity_open'] = [all(os.path.exists(f) for f in fs) and not (norec and s % bs) for fs, s in zip(arr.parity_files, psz)]
     # blockmax after the scan: exact when nothing is pending, else bounded (enough for the -S test used by the scenarios)
+    # an upper bound of the allocated size after the scan, for the `-S beyond the end` test
+    nblk = 0
+    for _, dirp in conf_disks:
+        for root, _, fs in os.walk(dirp):
+            for n in fs:
+                try:
+                    nblk += (os.lstat(os.path.join(root, n)).st_size + bs - 1) // bs
+                except OSError:
+                    pass
+    d['_blockmax_guess'] = cur_blockmax + nblk
     d['blockmax'] = cur_blockmax if not pend else None
     if d['blockmax'] is None:
         unknown.append('blockmax')
@@ -690,7 +747,8 @@ def opts_tokens(arr, opts, log=True):
             b(has('-R', '--force-realloc')), b(has('-U', '--force-uuid')), b(has('-a', '--audit-only')), b(has('-h', '--pre-hash')),
             b(has('--test-kill-after-sync')), b(has('--test-force-content-write')), b(has('--test-skip-content-write')),
             b(has('--test-skip-lock')), str(val('-S')), str(val('-B')), b(bool(fd)), ''.join(map(b, fpar)) or '-',
-            b(has('-f')), b(has('-m')), b(has('-e', '-b'))]
+            b(has('-f')), b(has('-m')), b(has('-e', '-b')),
+            b(has('-o') and has('-p') and o[o.index('-p') + 1] in ('bad', 'new', 'full'))]
 
 
 def pre_tokens(d, arr):
